@@ -12,10 +12,17 @@
 (*        version the node now gives block n, the format its decoder used, *)
 (*        whether the receipts read back equal what was written            *)
 (*   {"ev":"Stop"}   {"ev":"Reset"} (a fresh chain database)               *)
+(* The verdict configuration (HardforkTrace.cfg, Strict = FALSE) takes the *)
+(* start decisions from the log: a start the code refuses is never an      *)
+(* alarm, a start it accepts must leave every block its version and        *)
+(* receipt format (invariants on the history variables).                   *)
 (***************************************************************************)
 EXTENDS Hardfork, Json
 
 TraceLog == ndJsonDeserialize("trace.ndjson")
+
+CONSTANT Strict    \* TRUE: every start decision must be the model's (diagnostic: does the code still follow the algorithm);
+                   \* FALSE: the decision is read from the log and only the properties are evaluated (the verdict)
 
 VARIABLES l
 tvars == <<vars, l>>
@@ -27,13 +34,14 @@ IsEvent(n) == l <= Len(TraceLog) /\ TraceLog[l].ev = n
 TraceInit == Init /\ l = 1
 
 TraceStart == /\ IsEvent("Start")
-              /\ Start(CfgOf(Ev.c))
-              /\ lastAct'.ok = Ev.ok
+              /\ StartWith(CfgOf(Ev.c), Ev.ok)
+              /\ Strict => Ev.ok = Decision(CfgOf(Ev.c))
               /\ l' = l + 1
 TraceStop == IsEvent("Stop") /\ Stop /\ l' = l + 1
 TraceAddBlock == /\ IsEvent("AddBlock")
-                 /\ AddBlock
-                 /\ lastAct'.no = Ev.no /\ lastAct'.ver = Ev.ver /\ lastAct'.fmt = Ev.fmt
+                 /\ AddBlockWith(Ev.ver, Ev.fmt)
+                 /\ Ev.no = best + 1
+                 /\ Strict => (Ev.ver = Version(cfg, best + 1) /\ Ev.fmt = Fmt(cfg, best + 1))
                  /\ l' = l + 1
 \* reading an existing block: no change of the model state, but what the node reports must be the history
 TraceRead == /\ IsEvent("Read")
